@@ -411,7 +411,7 @@ add("e3_k9_chunker", "", overlay="e3",
 add("e3_k10_toml_output", "", overlay="e3",
     desc="toml::Output::{transcode_from, transcode_value} (+ ensure_one_use, output_value, inlined) from the library crate's MIR, one call from used = false and from used = true: a second use is refused with MultiDocument before anything is pulled and nothing is written; the used flag is set BEFORE the document is deserialized; a value the TOML type refuses, a non-table root or a render error => Err and no write; a table => exactly one write_all of the rendering, Ok iff it succeeded",
     bounds="one call of each entry point from each value of the used flag; all outcomes of Value construction, rendering, writing", functions=["toml::Output::transcode_from", "toml::Output::transcode_value", "toml::Output::ensure_one_use", "toml::Output::output_value"],
-    props=["C08", "C11"], timeout=300, mem_gb=4, assumptions=K_ASM[:1] + ["toml::Value::{deserialize,try_from}, toml::to_string_pretty and Write::write_all return symbolic results; Value::Table is variant 6 of toml::Value"])
+    props=["C08", "C11", "C15"], timeout=300, mem_gb=4, assumptions=K_ASM[:1] + ["toml::Value::{deserialize,try_from}, toml::to_string_pretty and Write::write_all return symbolic results; Value::Table is variant 6 of toml::Value"])
 add("e3_k11_dispatch", "", overlay="e3",
     desc="Translator::translate from the library crate's MIR: a named format skips detection and runs exactly that format's transcode once; otherwise detection runs once and its answer is used exactly as if named; None / detection error => Err and nothing is translated ('unable to detect input format'); the transcoder's verdict is returned",
     bounds="all (named format, detection outcome, transcoder verdict) combinations", functions=["Translator::translate"],
@@ -420,17 +420,21 @@ add("e3_k12_framing", "", overlay="e3",
     desc="json/yaml/msgpack Output::{transcode_from, transcode_value} from the library crate's MIR: JSON = document body then a newline, YAML = a '---' line then the body, MessagePack = the body only; framing text goes through write_fmt/write_all (whole-text delivery), never a bare write(); Ok iff the body and every framing write succeeded",
     bounds="all outcomes of the body and of each framing write", functions=["json::Output", "yaml::Output", "msgpack::Output"],
     props=["C03", "C12"], timeout=300, mem_gb=4, assumptions=K_ASM[:1])
+add("e3_k14_detect_flush", "", overlay="e3",
+    desc="detect_format from the library crate's MIR (covers the reader handle too): trial order MessagePack, JSON, YAML, TOML, a fresh borrow of the handle per trial, stop at the first non-'no', that format / None / that error; and the flush chain Translator::flush -> Dispatcher -> <format>::Output::flush -> Write::flush of the Output's own writer with the result passed through",
+    bounds="all outcome combinations of the four trials; all four Outputs", functions=["detect::detect_format", "Translator::flush", "Dispatcher::flush", "json/msgpack/yaml/toml::Output::flush"],
+    props=["C09", "C15", "C16", "C12"], timeout=300, mem_gb=4, assumptions=K_ASM[:1])
 add("e3_k13_trials", "", overlay="e3",
     desc="the four <format>::input_matches trials from the library crate's MIR, slice and reader reference: Err is returned only for an I/O error of the source (prefix request, or a reader error passed on by the trial parser); running out of input (rmp's synthetic UnexpectedEof in marker OR data position), invalid UTF-8, a syntax error, an InvalidData chunker error or no document all mean Ok(false); the MessagePack trial only runs for a collection first byte; the YAML trial looks at a DETECT_LEN = 4 byte prefix; the TOML trial buffers a reader up to exactly 2 MiB (constant evaluated from its MIR) and gives up at or above it",
     bounds="all paths of the four functions; all outcome classes of prefix / from_utf8 / trial parser / chunker", functions=["msgpack::input_matches", "json::input_matches", "yaml::input_matches", "toml::input_matches"],
-    props=["C09", "C12"], thorough_props=["C02"], timeout=300, mem_gb=4, assumptions=K_ASM[:1] + ["rmp_serde::decode::Error variant order (InvalidMarkerRead = 0, InvalidDataRead = 1), rmp::Marker collection variants 22..27"])
+    props=["C09", "C12", "C14"], thorough_props=["C02"], timeout=300, mem_gb=4, assumptions=K_ASM[:1] + ["rmp_serde::decode::Error variant order (InvalidMarkerRead = 0, InvalidDataRead = 1), rmp::Marker collection variants 22..27"])
 add("e3_k8_from_reader", "", overlay="e3",
     desc="yaml::encoding::Encoder::from_reader from the library crate's MIR: the detector is given prefix.unread() where the prefix buffer was filled by io::copy(reader.by_ref().take(DETECT_LEN)) - io::copy loops until Take is exhausted, so four bytes are seen for EVERY windowing of the source - and Encoder::new gets prefix.chain(reader) with the detected encoding; a copy failure is returned as Err",
     bounds="all paths of from_reader (data-flow of the four observable calls)", functions=["yaml::encoding::Encoder::from_reader"],
     props=["C07", "C02", "C09"], timeout=300, mem_gb=4, assumptions=K_ASM[:1] + ["documented contract of std::io::copy / Read::take / Read::chain"])
 add("e3_main", "", overlay="e3", desc="every path of main(): K3 exit status 2 <=> invalid command line (usage on stderr, nothing on stdout, nothing translated), exit(1) <=> one 'xt error' message naming the input the failure belongs to, 0 <=> all translated and flushed, MessagePack never to a terminal; K4 source format = -f, else extension, else detection, stdin at most once, mmap => slice; K5 every finished input is flushed explicitly before anything else can fail; K6 translator writes through pipecheck::Writer(BufWriter(stdout.lock()))",
     bounds="<= 3 inputs (thorough: 4); all outcomes of parse_args / open / mmap / translate / flush / is_terminal", functions=K_FUN,
-    props=["C13", "C14", "C15", "C16"], timeout=1800, mem_gb=6, assumptions=K_ASM)
+    props=["C13", "C14", "C15", "C16", "C04"], timeout=1800, mem_gb=6, assumptions=K_ASM)
 
 
 # ---------------------------------------------------------------------------------------------
